@@ -127,7 +127,7 @@ def load_findings():
 
 def match_finding(findings, pid, v):
     for f in findings["findings"]:
-        if f["property"] != pid:
+        if pid != f["property"] and pid not in (f.get("also_in") or []):
             continue
         if f["oracle"] == v["oracle"] and f["signature"] == v["signature"]:
             return f
@@ -248,9 +248,12 @@ def check(pid, tier="quick", seed=None, workers=None, budget_s=None, nruns=None,
     known_lines = []
     known_counts = Counter()
     for f in findings["findings"]:
-        if f["property"] != pid or not f.get("replay"):
+        if pid != f["property"] and pid not in (f.get("also_in") or []):
             continue
-        path = os.path.join(VERIF, f["replay"])
+        rp = (f.get("replays") or {}).get(pid) or (f.get("replay") if pid == f["property"] else None)
+        if not rp:
+            continue
+        path = os.path.join(VERIF, rp)
         with open(path) as fh:
             doc = json.load(fh)
         out = run_plan(prop, doc["plan"])
@@ -342,6 +345,9 @@ def check(pid, tier="quick", seed=None, workers=None, budget_s=None, nruns=None,
     os.makedirs(os.path.join(VERIF, "evidence"), exist_ok=True)
     with open(os.path.join(VERIF, "evidence", pid + ".json"), "w") as fh:
         json.dump(ev, fh, indent=1, default=str)
+    for f in findings["findings"]:
+        if known_counts.get(f["id"]) and not any(("[%s]" % f["id"]) in l for l in known_lines):
+            known_lines.append("KNOWN-FINDING: property=%s %s [%s]" % (pid, f["what"], f["id"]))
     for l in known_lines:
         print(l)
     print("runs=%d distinct_nontrivial=%d wall=%.1fs runs/hour=%d faults=%s noverdict=%d known_hits=%s" % (
